@@ -185,6 +185,19 @@ var zzFaults = []func(s *ogen.Spec){
 	func(s *ogen.Spec) { s.Paths = nil },
 	func(s *ogen.Spec) { s.Paths["/things/{id}"].Get.Callbacks = map[string]*ogen.Callback{"cb": nil} },
 	func(s *ogen.Spec) { s.Webhooks = map[string]*ogen.PathItem{"w": nil} },
+	// cyclic schemas used where the parser walks oneOf/anyOf/allOf itself (parameter style check)
+	func(s *ogen.Spec) {
+		s.Components.Schemas["Rec"] = &ogen.Schema{OneOf: []*ogen.Schema{{Ref: "#/components/schemas/Rec"}, {Type: "string"}}}
+		s.Paths["/things/{id}"].Get.Parameters[1].Schema = &ogen.Schema{Ref: "#/components/schemas/Rec"}
+	},
+	func(s *ogen.Spec) {
+		s.Components.Schemas["RecA"] = &ogen.Schema{AnyOf: []*ogen.Schema{{Type: "integer"}, {Ref: "#/components/schemas/RecB"}}}
+		s.Components.Schemas["RecB"] = &ogen.Schema{AllOf: []*ogen.Schema{{Ref: "#/components/schemas/RecA"}}}
+		s.Components.Headers["H"].Schema = &ogen.Schema{Ref: "#/components/schemas/RecB"}
+	},
+	func(s *ogen.Spec) {
+		s.Components.Schemas["Thing"].Properties[4].Schema = &ogen.Schema{OneOf: []*ogen.Schema{{Ref: "#/components/schemas/Thing"}, {Type: "string"}}}
+	},
 }
 
 func ZZNumFaults() int { return len(zzFaults) }
